@@ -9,14 +9,26 @@ sys.path.insert(0, os.path.join(VERIF, "build"))
 import build
 
 
-def run_one(args):
+def run_one(args, force=False):
     d, sc, t, seed, rounds = args
+    if not force and STALLED.get(sc, 0) >= 3:
+        return args, -8, "", "skipped"      # three runs of this scenario did not end: the rest of it is not paid for (reported as inconclusive)
     env = dict(os.environ, TSAN_OPTIONS="exitcode=66 halt_on_error=0 history_size=4 second_deadlock_stack=1")
     try:
-        p = subprocess.run([os.path.join(d, "mtx"), sc, str(t), str(seed), str(rounds)], capture_output=True, text=True, errors="replace", env=env, timeout=600)
+        p = subprocess.run([os.path.join(d, "mtx"), sc, str(t), str(seed), str(rounds)], capture_output=True, text=True, errors="replace", env=env, timeout=TIMEOUT)
         return args, p.returncode, p.stdout, p.stderr
-    except subprocess.TimeoutExpired:
+    except subprocess.TimeoutExpired as e:
+        # a run that does not end (a fault-free run takes seconds): what ThreadSanitizer reported before the stall is kept - a data race is a violation
+        # whether or not the process then comes to an end; a stall without a report stays inconclusive
+        err = e.stderr.decode(errors="replace") if isinstance(e.stderr, bytes) else (e.stderr or "")
+        STALLED[sc] = STALLED.get(sc, 0) + 1
+        if "ThreadSanitizer" in err:
+            return args, 66, "", err + "\n(the run did not end within %d s)" % TIMEOUT
         return args, -9, "", "timeout"
+
+
+TIMEOUT = 60
+STALLED = {}
 
 
 def main(tier, seed, only=None):
@@ -36,6 +48,8 @@ def main(tier, seed, only=None):
     notes = []
     samples = []
     blocks = 0
+    skipped = 0
+    STALLED.clear()
     with ThreadPoolExecutor(4) as ex:
         for args, rc, out, err in ex.map(run_one, jobs):
             _, sc, t, s, r = args
@@ -49,12 +63,15 @@ def main(tier, seed, only=None):
             if rc == -9:
                 notes.append("%s T=%d seed=%d: timeout (inconclusive)" % (sc, t, s))
                 continue
+            if rc == -8:
+                skipped += 1
+                continue
             if any(a[1] == sc for a, _, _ in viol):
                 continue     # this scenario already has a confirmed violation: do not pay for re-runs again
             # confirm: the same command must fail again (3x) - a race is reported whenever both accesses occur
             again = 0
             for _ in range(3):
-                _, rc2, o2, e2 = run_one(args)
+                _, rc2, o2, e2 = run_one(args, True)
                 again += (rc2 != 0 or "ThreadSanitizer" in e2)
             what = ([l for l in err.splitlines() if l.startswith("SUMMARY") or l.startswith("INVARIANT")] or [err[-300:]])[0]
             if again == 3:
@@ -79,7 +96,7 @@ def main(tier, seed, only=None):
           "coverage": {"evaluations": len(jobs), "distinct_nontrivial": len({(j[1], j[2], j[3]) for j in jobs if j[2] >= 2}),
                        "rule": "each evaluation is one process: T in {2,3,4,8,16} threads released by a barrier run generated sequences (once: %d fresh triggers; atomic: %d00 increments/decrements/CAS per thread; rng: %d well-bracketed sessions of create/StepR/StepR2/rekey/isvalid/nested create/close per thread; onexit: 8x as many concurrent utilOnExit registrations, all of which must run at exit; churn: 4x as many minimal sessions, so that the shared state is destroyed and re-created while other threads enter) with seeded yields; "
                                "ThreadSanitizer (happens-before) + invariants are the oracle; every run has >= 2 overlapping threads, distinct by (scenario, T, seed)" % (rounds["once"], rounds["atomic"], rounds["rng"]),
-                       "samples": samples, "generator_blocks_compared": blocks, "notes": notes, "exhaustive": False},
+                       "samples": samples, "generator_blocks_compared": blocks, "notes": notes + (["%d runs skipped after three stalls of their scenario" % skipped] if skipped else []), "exhaustive": False},
           "assumptions": ["ThreadSanitizer reports a race when both accesses occur in a run, without needing the losing interleaving; atomicity violations that are not data races need the bad schedule to happen - schedules are sampled, not enumerated",
                           "clang 14 TSan runtime; the library is built without NDEBUG so its ASSERTs join the oracle"],
           "wall_s": round(wall, 2), "violations": len(paths)}
